@@ -365,8 +365,8 @@ POLICIES = {
 class C08(Property):
     id = "C08"
     prop_modules = ["CobaVerif.Props.C08"]
-    quick_n = 700
-    thorough_n = 12000
+    quick_n = 3000
+    thorough_n = 40000
     search_n = 1500
     case_timeout = 120
     workers = 8
